@@ -3,6 +3,8 @@ package crashlib
 import (
 	"fmt"
 
+	"github.com/MixinNetwork/mixin/config"
+
 	"verifharness/vh"
 )
 
@@ -62,6 +64,45 @@ func SpecDup() Spec {
 		{Kind: "transfer", Chain: 3, Src: []int{1}, NewRound: true, Ext: 1},
 		{Kind: "dup", Chain: 5, Src: []int{0}},
 	}}
+}
+
+// long chain: one chain is driven through round transitions up to head round
+// SnapshotReferenceThreshold+3 (one snapshot per round, external references to another chain's
+// final rounds), so that restarts happen with every final round number around the reference
+// threshold, where Chain.loadState's round history window starts to slide.
+func SpecLong(chain, ext int) Spec {
+	sp := Spec{Nodes: 7}
+	n := config.SnapshotReferenceThreshold + 3
+	for i := 0; i < n; i++ {
+		sp.Steps = append(sp.Steps, Step{Kind: "deposit", Chain: chain, NewRound: i > 0, Ext: ext})
+	}
+	// another chain moves too, so that the long chain's later external references advance
+	sp.Steps = append(sp.Steps, Step{Kind: "deposit", Chain: ext})
+	return sp
+}
+
+// roundTransitions: a restart right after every StartNewRound; around final round numbers
+// Threshold-2 .. Threshold+1 also right before the call and after the snapshot that follows.
+func roundTransitions(full []Call) []point {
+	var p []point
+	t := uint64(config.SnapshotReferenceThreshold)
+	for i, c := range full {
+		if c.Name != "StartNewRound" || c.Round == 0 {
+			continue
+		}
+		p = append(p, point{"after", i + 1})
+		final := c.Round - 1
+		if final+2 >= t && final <= t+1 {
+			p = append(p, point{"before", i + 1})
+			for j := i + 1; j < len(full); j++ {
+				if full[j].Name == "WriteSnapshot" {
+					p = append(p, point{"after", j + 1})
+					break
+				}
+			}
+		}
+	}
+	return append(p, point{"after", len(full)})
 }
 
 // F7 witness: pledge, then the node-accept sequence
@@ -310,6 +351,11 @@ func Main(prop string) {
 	if c.Replay != "" {
 		var cs CaseJS
 		c.ReplayCase(&cs)
+		if cs.Mode == "conc" && cs.Conc != nil {
+			h.RunConc(cs.Workload, cs.Spec, *cs.Conc)
+			c.Finish()
+			return
+		}
 		h.RunWorkload(cs.Workload, cs.Spec, func(full []Call) []point {
 			if cs.Mode == "none" {
 				return nil
@@ -335,6 +381,10 @@ func mainC21(h *Harness) {
 	// corpus: the recorded finding and its control always run
 	h.RunWorkload("corpus-F6", SpecF6(), limit(consensusWindow(true), 10, c.Rng.Fork("l0")))
 	h.RunWorkload("corpus-F6-control", SpecF6Control(), limit(consensusWindow(false), 5, c.Rng.Fork("l1")))
+	h.concCases(c.Rng.Fork("conc"))
+	if c.Tier != "quick" {
+		h.RunWorkload("corpus-long-chain", SpecLong(2, 5), roundTransitions)
+	}
 	switch c.Tier {
 	case "quick":
 		h.RunWorkload("corpus-mint", SpecMint(), limit(consensusWindow(true), 8, c.Rng.Fork("l3")))
@@ -360,16 +410,20 @@ func mainC22(h *Harness) {
 	case "quick":
 		h.RunWorkload("corpus-F7", SpecF7(), limit(allAfter(0), 14, c.Rng.Fork("l0")))
 		h.RunWorkload("corpus-dup", SpecDup(), limit(allAfter(0), 9, c.Rng.Fork("l2")))
+		h.RunWorkload("corpus-long-chain", SpecLong(2, 5), roundTransitions)
 		h.RunWorkload("gen-0", GenSpec(c.Rng.Fork("w0"), 8, 1, false), limit(sampledBefore(c.Rng.Fork("b0"), 1, 4), 34, c.Rng.Fork("l1")))
 	case "search":
 		h.RunWorkload("corpus-F7", SpecF7(), allAfter(0))
 		h.RunWorkload("corpus-dup", SpecDup(), allAfter(0))
+		h.RunWorkload("corpus-long-chain", SpecLong(2, 5), allAfter(0))
 		for i := 0; i < 4; i++ {
 			h.RunWorkload(fmt.Sprintf("gen-%d", i), GenSpec(c.Rng.Fork(fmt.Sprint("w", i)), 9, 1, i%2 == 1), allAfter(0))
 		}
 	default:
 		h.RunWorkload("corpus-F7", SpecF7(), everyPoint)
 		h.RunWorkload("corpus-dup", SpecDup(), everyPoint)
+		h.RunWorkload("corpus-long-chain", SpecLong(2, 5), everyPoint)
+		h.RunWorkload("corpus-long-chain-b", SpecLong(6, 0), everyPoint)
 		for i := 0; i < 8; i++ {
 			h.RunWorkload(fmt.Sprintf("gen-%d", i), GenSpec(c.Rng.Fork(fmt.Sprint("w", i)), 10+2*i, 2, i%2 == 1), everyPoint)
 		}
